@@ -626,6 +626,57 @@ func (fs Facts) boundsOf(f form, depth int) ival {
 			}
 		}
 	}
+	// two facts whose forms add up to f (one step of transitivity: a <= b, b < c gives a < c)
+	if depth == 0 && len(f.coef) > 0 {
+		type fb struct {
+			g form
+			b ival
+		}
+		var fbs []fb
+		for _, ft := range fs {
+			if g, b, ok := factBound(ft); ok && (b.hasLo || b.hasHi) {
+				fbs = append(fbs, fb{g, b})
+			}
+		}
+		for i := 0; i < len(fbs); i++ {
+			for j := i + 1; j < len(fbs); j++ {
+				for _, si := range []int64{1, -1} {
+					for _, sj := range []int64{1, -1} {
+						sum := form{coef: map[string]int64{}, atom: map[string]*Val{}}
+						for k, c := range fbs[i].g.coef {
+							sum.coef[k] += si * c
+						}
+						for k, c := range fbs[j].g.coef {
+							sum.coef[k] += sj * c
+						}
+						for k, c := range sum.coef {
+							if c == 0 {
+								delete(sum.coef, k)
+							}
+						}
+						if sameCoef(sum, f) != 1 {
+							continue
+						}
+						bi, bj := fbs[i].b, fbs[j].b
+						if si < 0 {
+							bi = bi.neg()
+						}
+						if sj < 0 {
+							bj = bj.neg()
+						}
+						var r ival
+						if bi.hasLo && bj.hasLo {
+							r.lo, r.hasLo = bi.lo+bj.lo, true
+						}
+						if bi.hasHi && bj.hasHi {
+							r.hi, r.hasHi = bi.hi+bj.hi, true
+						}
+						iv.meet(r)
+					}
+				}
+			}
+		}
+	}
 	// intrinsic bounds of a single atom
 	if len(f.coef) == 1 {
 		for k, c := range f.coef {
